@@ -42,6 +42,8 @@ pub struct Game {
     sim_count: std::collections::HashMap<i32, u32>,
     /// report a checksum with every save
     pub with_checksum: bool,
+    /// checksum of the most recent save of each frame (bounded)
+    pub saved: std::collections::HashMap<i32, u64>,
 }
 
 impl Default for Game {
@@ -58,6 +60,7 @@ impl Game {
             glitch: None,
             sim_count: Default::default(),
             with_checksum: true,
+            saved: Default::default(),
         }
     }
 
@@ -77,6 +80,11 @@ impl Game {
                     };
                     // save under the frame the session names (the contract), with our state
                     cell.save(frame, Some(self.st), cs);
+                    self.saved.insert(frame, self.st.hash);
+                    if self.saved.len() > 4096 {
+                        let lo = frame - 2048;
+                        self.saved.retain(|k, _| *k >= lo);
+                    }
                 }
                 GgrsRequest::LoadGameState { cell, frame } => match cell.load() {
                     Some(s) => {
